@@ -1,15 +1,342 @@
 /-
-  C07 — i-RMSD and L-RMSD equal their definitions, atoms paired by identity.  Property theorems only.
+  C07 — i-RMSD and L-RMSD equal their definitions, with atoms paired by identity.  Property theorems only
+  (helper lemmas: Proofs/Rmsd*.lean).
+
+  `Model.Rmsd.irmsdFast / irmsdSql / lrmsdFast / lrmsdSql` are the hand-written data-flow models of the four routines
+  (tied to the code by the correspondence check of py/props/c07.py); a successful run returns the ordered lists of
+  (decoy point, reference point) pairs used for fitting and for evaluation, each point tagged with the identity of the
+  record it was read from.  `Spec.Rmsd.*` is the statement's vocabulary.  Hypotheses of the pair theorems:
+  * `Spec.Rmsd.Consistent dec ref` (decidable): identities (chain, number, name) unique per file, one residue name per
+    (chain, number) across both files, exactly two chains, the same chains in both;
+  * `RawAgrees lines table` (decidable on every concrete input; checked by the driver on every generated case): the
+    raw-column readers of the fast routines see the identities and coordinates the parser put into the table;
+  * the zone is the one computed from the reference (in memory or written); zone FILES are C09's subject.
+  The numeric kernel enters through the explicit hypothesis `KernelOptimalAt` ("on these centred point sets
+  `get_rotation_matrix` returns a proper rotation of minimal residual"), which `Props.C06.rmsd_minimal` /
+  `quat_optimal` discharge under the SVD / eig contracts.
 -/
-import PdbVerif.Spec.C07
-import PdbVerif.Model.RmsdFast
-import PdbVerif.Model.RmsdSql
+import PdbVerif.Proofs.RmsdInv
+import PdbVerif.Proofs.RmsdMsd
+import PdbVerif.Proofs.RmsdDemo
+import PdbVerif.Model.Parse
+
+set_option linter.unusedVariables false
+set_option linter.unusedSectionVars false
+set_option linter.unusedTactic false
+set_option linter.unusedSimpArgs false
 
 namespace Props.C07
-open Py
+open Py Model Model.Rmsd Spec.Rmsd Proofs.Rmsd Proofs.Msd
 
-/-- the backbone names of the statement are the names the zone helpers select -/
-theorem backbone_names (n : Str) : n ∈ Model.Rmsd.zoneNames ↔ n ∈ Spec.Rmsd.backboneNames := by
-  simp [Model.Rmsd.zoneNames, Gen.zone_backbone_names, Spec.Rmsd.backboneNames]; grind
+/-! ### 1. which atoms, how paired: the four routines use the definition's pairs -/
+
+/-- **i-RMSD, fast routine.**  Either the routine hands the kernel exactly the pairs of the definition — every pair joins
+    two records of the same identity, and as a multiset the pairs are `Spec.interfacePairs` — or it raises: the
+    enforced residue check (`ValueError`), or `TypeError` when the definition has no pair at all. -/
+theorem irmsd_pairs_fast (dl rl : List Str) (dec ref : List Atom) (hd : RawAgrees dl dec) (hr : RawAgrees rl ref)
+    (hc : Consistent dec ref) (src : ZoneSrc) (hsrc : src = .compute ∨ src = .write) (c : Rat) (enforce : Bool) :
+    match irmsdFast dl rl (.ok dec) (.ok ref) src c true enforce with
+    | .value fit ev => fit ≠ [] ∧ ev = fit ∧ (∀ p ∈ fit, p.1.1 = p.2.1) ∧ (fit.map idPair).Perm (interfacePairs dec ref c)
+    | .err e => (e = .valueError ∧ enforce = true ∧ checkResidues dec ref none true = .error .valueError) ∨
+        (e = .typeError ∧ interfacePairs dec ref c = []) :=
+  irmsdFast_pairs hd hr (cons_of_consistent hc) src hsrc c enforce
+
+/-- **i-RMSD, SQL routine** (zone computed in memory): the pairs of the definition, or `ValueError` when there is none. -/
+theorem irmsd_pairs_sql (dec ref : List Atom) (hc : Consistent dec ref) (c : Rat) :
+    match irmsdSql (.ok dec) (.ok ref) none c with
+    | .value fit ev => fit ≠ [] ∧ ev = fit ∧ (∀ p ∈ fit, p.1.1 = p.2.1) ∧ (fit.map idPair).Perm (interfacePairs dec ref c)
+    | .err e => e = .valueError ∧ interfacePairs dec ref c = [] :=
+  irmsdSql_pairs (cons_of_consistent hc) c
+
+/-- **L-RMSD, fast routine**: fitted on the common backbone atoms of the longer chain of the reference (atom count,
+    first chain on a tie), evaluated on those of the shorter chain. -/
+theorem lrmsd_pairs_fast (dl rl : List Str) (dec ref : List Atom) (hd : RawAgrees dl dec) (hr : RawAgrees rl ref)
+    (hc : Consistent dec ref) (src : ZoneSrc) (hsrc : src = .compute ∨ src = .write) (enforce : Bool) :
+    match lrmsdFast dl rl (.ok dec) (.ok ref) src true enforce with
+    | .value fit ev => fit ≠ [] ∧ ev ≠ [] ∧ (∀ p ∈ fit ++ ev, p.1.1 = p.2.1) ∧
+        (fit.map idPair).Perm (ligandFitPairs dec ref) ∧ (ev.map idPair).Perm (ligandEvalPairs dec ref)
+    | .err e => (e = .valueError ∧ enforce = true ∧ checkResidues dec ref (some lrmsdFastNames) true = .error .valueError) ∨
+        (e = .typeError ∧ ligandFitPairs dec ref = []) ∨ (e = .valueError ∧ ligandEvalPairs dec ref = []) :=
+  lrmsdFast_pairs hd hr (cons_of_consistent hc) src hsrc enforce
+
+/-- **L-RMSD, SQL routine.** -/
+theorem lrmsd_pairs_sql (dec ref : List Atom) (hc : Consistent dec ref) (enforce : Bool) :
+    match lrmsdSql (.ok dec) (.ok ref) enforce with
+    | .value fit ev => fit ≠ [] ∧ ev ≠ [] ∧ (∀ p ∈ fit ++ ev, p.1.1 = p.2.1) ∧
+        (fit.map idPair).Perm (ligandFitPairs dec ref) ∧ (ev.map idPair).Perm (ligandEvalPairs dec ref)
+    | .err e => (e = .valueError ∧ enforce = true ∧ checkResidues dec ref (some lrmsdSqlNames) true = .error .valueError) ∨
+        (e = .typeError ∧ ligandFitPairs dec ref = []) ∨ (e = .valueError ∧ ligandEvalPairs dec ref = []) :=
+  lrmsdSql_pairs (cons_of_consistent hc) enforce
+
+/-- non-vacuity: a concrete reference (two chains, a side-chain atom) and an incomplete, reordered, displaced decoy satisfy
+    the hypotheses — the tables are what the parser model builds from the record lines, the raw readers agree with them —
+    and the routines return values over the expected numbers of pairs -/
+example : (Model.parse Demo.refLines).map (fun rows => rows.filterMap Atom.ofRow) = .ok Demo.ref ∧
+    (Model.parse Demo.decLines).map (fun rows => rows.filterMap Atom.ofRow) = .ok Demo.dec := by decide +kernel
+example : Consistent Demo.dec Demo.ref := by decide
+example : RawAgrees Demo.refLines Demo.ref ∧ RawAgrees Demo.decLines Demo.dec := ⟨⟨by decide +kernel⟩, ⟨by decide +kernel⟩⟩
+example : (match irmsdFast Demo.decLines Demo.refLines (.ok Demo.dec) (.ok Demo.ref) .compute 5 true false with
+    | .value f _ => f.length | .err _ => 0) = 4 := by decide +kernel
+example : (match lrmsdSql (.ok Demo.dec) (.ok Demo.ref) false with
+    | .value f e => (f.length, e.length) | .err _ => (0, 0)) = (2, 2) := by decide +kernel
+/-- … and with enforcement on, the missing CB atom is reported by the i-RMSD routine (it checks every atom) -/
+example : missingSomewhere none Demo.dec Demo.ref = true := by decide
+
+/-! ### 2. the value depends on the multiset of pairs only -/
+
+/-- the mean squared deviation under any motion, hence the RMSD and its minimum, does not depend on the order in
+    which the pairs are emitted -/
+theorem rmsd_perm_invariant {α : Type} [Field α] [LinearOrder α] [IsStrictOrderedRing α] (g : Motion α)
+    {l₁ l₂ : List (Vec3 α × Vec3 α)} (h : l₁.Perm l₂) :
+    msd g l₁ = msd g l₂ ∧ (∀ m, IsMinMsd m l₁ ↔ IsMinMsd m l₂) :=
+  ⟨msd_perm g h, fun m => ⟨isMinMsd_perm h, isMinMsd_perm h.symm⟩⟩
+
+example : msd (Motion.id : Motion ℚ) [(⟨1, 0, 0⟩, ⟨0, 0, 0⟩), (⟨0, 2, 0⟩, ⟨0, 0, 0⟩)] =
+    msd Motion.id [(⟨0, 2, 0⟩, ⟨0, 0, 0⟩), (⟨1, 0, 0⟩, ⟨0, 0, 0⟩)] :=
+  (rmsd_perm_invariant _ (List.Perm.swap _ _ _)).1
+
+/-! ### 3. paired by identity, never by position -/
+
+/-- For EVERY reordering `dec'`, `ref'` of the records of decoy and reference (`dl'`, `rl'` being the reordered files),
+    each routine either uses the same multiset of pairs as the definition gives for the original order — every pair joining
+    two records of the same identity — or raises (the enforced residue check; or the no-atom errors, which do not depend
+    on the order either).  Never a pairing by position. -/
+theorem paired_by_identity_not_position (dl' rl' : List Str) (dec ref dec' ref' : List Atom)
+    (hc : Consistent dec ref) (hpd : dec'.Perm dec) (hpr : ref'.Perm ref)
+    (hd : RawAgrees dl' dec') (hr : RawAgrees rl' ref') (c : Rat) (enforce : Bool) :
+    (match irmsdFast dl' rl' (.ok dec') (.ok ref') .compute c true enforce with
+      | .value fit ev => ev = fit ∧ (∀ p ∈ fit, p.1.1 = p.2.1) ∧ (fit.map idPair).Perm (interfacePairs dec ref c)
+      | .err e => (e = .valueError ∧ enforce = true) ∨ (e = .typeError ∧ interfacePairs dec ref c = [])) ∧
+    (match irmsdSql (.ok dec') (.ok ref') none c with
+      | .value fit ev => ev = fit ∧ (∀ p ∈ fit, p.1.1 = p.2.1) ∧ (fit.map idPair).Perm (interfacePairs dec ref c)
+      | .err e => e = .valueError ∧ interfacePairs dec ref c = []) ∧
+    (match lrmsdFast dl' rl' (.ok dec') (.ok ref') .compute true enforce with
+      | .value fit ev => (∀ p ∈ fit ++ ev, p.1.1 = p.2.1) ∧
+          (fit.map idPair).Perm (ligandFitPairs dec ref) ∧ (ev.map idPair).Perm (ligandEvalPairs dec ref)
+      | .err e => (e = .valueError ∧ enforce = true) ∨ (e = .typeError ∧ ligandFitPairs dec ref = []) ∨
+          (e = .valueError ∧ ligandEvalPairs dec ref = [])) ∧
+    (match lrmsdSql (.ok dec') (.ok ref') enforce with
+      | .value fit ev => (∀ p ∈ fit ++ ev, p.1.1 = p.2.1) ∧
+          (fit.map idPair).Perm (ligandFitPairs dec ref) ∧ (ev.map idPair).Perm (ligandEvalPairs dec ref)
+      | .err e => (e = .valueError ∧ enforce = true) ∨ (e = .typeError ∧ ligandFitPairs dec ref = []) ∨
+          (e = .valueError ∧ ligandEvalPairs dec ref = [])) := by
+  have hcons := cons_of_consistent hc
+  have hc' := cons_perm hpd hpr hcons
+  have pI := interfacePairs_perm hpd hpr hcons.nodupD c
+  have pF := ligandFitPairs_perm hpd hpr hcons.nodupD
+  have pE := ligandEvalPairs_perm hpd hpr hcons.nodupD
+  have nilI : interfacePairs dec' ref' c = [] → interfacePairs dec ref c = [] := fun h => by
+    rw [h] at pI; exact (List.Perm.nil_eq pI).symm
+  have nilF : ligandFitPairs dec' ref' = [] → ligandFitPairs dec ref = [] := fun h => by
+    rw [h] at pF; exact (List.Perm.nil_eq pF).symm
+  have nilE : ligandEvalPairs dec' ref' = [] → ligandEvalPairs dec ref = [] := fun h => by
+    rw [h] at pE; exact (List.Perm.nil_eq pE).symm
+  refine ⟨?_, ?_, ?_, ?_⟩
+  · have := irmsdFast_pairs hd hr hc' .compute (Or.inl rfl) c enforce
+    split at this <;> rename_i heq <;> (try rw [heq]) <;> (try simp only)
+    · exact ⟨this.2.1, this.2.2.1, this.2.2.2.trans pI⟩
+    · rcases this with h | h
+      · exact Or.inl ⟨h.1, h.2.1⟩
+      · exact Or.inr ⟨h.1, nilI h.2⟩
+  · have := irmsdSql_pairs hc' c
+    split at this <;> rename_i heq <;> (try rw [heq]) <;> (try simp only)
+    · exact ⟨this.2.1, this.2.2.1, this.2.2.2.trans pI⟩
+    · exact ⟨this.1, nilI this.2⟩
+  · have := lrmsdFast_pairs hd hr hc' .compute (Or.inl rfl) enforce
+    split at this <;> rename_i heq <;> (try rw [heq]) <;> (try simp only)
+    · exact ⟨this.2.2.1, this.2.2.2.1.trans pF, this.2.2.2.2.trans pE⟩
+    · rcases this with h | h | h
+      · exact Or.inl ⟨h.1, h.2.1⟩
+      · exact Or.inr (Or.inl ⟨h.1, nilF h.2⟩)
+      · exact Or.inr (Or.inr ⟨h.1, nilE h.2⟩)
+  · have := lrmsdSql_pairs hc' enforce
+    split at this <;> rename_i heq <;> (try rw [heq]) <;> (try simp only)
+    · exact ⟨this.2.2.1, this.2.2.2.1.trans pF, this.2.2.2.2.trans pE⟩
+    · rcases this with h | h | h
+      · exact Or.inl ⟨h.1, h.2.1⟩
+      · exact Or.inr (Or.inl ⟨h.1, nilF h.2⟩)
+      · exact Or.inr (Or.inr ⟨h.1, nilE h.2⟩)
+
+/-! ### 4. missing atoms are left out — or reported when enforcement is on -/
+
+/-- Every pair of the definition joins an identity present in BOTH structures, and removing records from the decoy
+    (`dec.filter keep`) removes exactly the pairs of the removed identities: nothing else changes, nothing is re-paired.
+    (With the pair theorems above: with enforcement off the routines use exactly these pairs.) -/
+theorem missing_atoms_left_out (dec ref : List Atom) (hc : Consistent dec ref) (sel : Atom → Bool) (keep : Atom → Bool) :
+    (∀ p ∈ commonBackbone dec ref sel, p.1 ∈ dec.map key ∧ p.1 ∈ ref.map key) ∧
+    (∀ p, p ∈ commonBackbone (dec.filter keep) ref sel ↔
+      p ∈ commonBackbone dec ref sel ∧ ∃ d ∈ dec, keep d = true ∧ key d = p.1) :=
+  ⟨fun p hp => commonBackbone_keys (cons_of_consistent hc).nodupD sel hp,
+   fun p => commonBackbone_filter (cons_of_consistent hc).nodupD sel keep p⟩
+
+/-- with enforcement off the routines that check residues never raise because of a mismatch: they return the pairs of
+    the definition (or there is no pair to superpose / evaluate) -/
+theorem missing_atoms_left_out_routines (dl rl : List Str) (dec ref : List Atom) (hd : RawAgrees dl dec) (hr : RawAgrees rl ref)
+    (hc : Consistent dec ref) (c : Rat) :
+    (match irmsdFast dl rl (.ok dec) (.ok ref) .compute c true false with
+      | .value fit _ => (fit.map idPair).Perm (interfacePairs dec ref c)
+      | .err _ => interfacePairs dec ref c = []) ∧
+    (match lrmsdFast dl rl (.ok dec) (.ok ref) .compute true false with
+      | .value fit ev => (fit.map idPair).Perm (ligandFitPairs dec ref) ∧ (ev.map idPair).Perm (ligandEvalPairs dec ref)
+      | .err _ => ligandFitPairs dec ref = [] ∨ ligandEvalPairs dec ref = []) ∧
+    (match lrmsdSql (.ok dec) (.ok ref) false with
+      | .value fit ev => (fit.map idPair).Perm (ligandFitPairs dec ref) ∧ (ev.map idPair).Perm (ligandEvalPairs dec ref)
+      | .err _ => ligandFitPairs dec ref = [] ∨ ligandEvalPairs dec ref = []) := by
+  refine ⟨?_, ?_, ?_⟩
+  · have := irmsd_pairs_fast dl rl dec ref hd hr hc .compute (Or.inl rfl) c false
+    split at this <;> rename_i heq <;> (try rw [heq]) <;> (try simp only)
+    · exact this.2.2.2
+    · rcases this with h | h
+      · exact absurd h.2.1 (by simp)
+      · exact h.2
+  · have := lrmsd_pairs_fast dl rl dec ref hd hr hc .compute (Or.inl rfl) false
+    split at this <;> rename_i heq <;> (try rw [heq]) <;> (try simp only)
+    · exact this.2.2.2
+    · rcases this with h | h | h
+      · exact absurd h.2.1 (by simp)
+      · exact Or.inl h.2
+      · exact Or.inr h.2
+  · have := lrmsd_pairs_sql dec ref hc false
+    split at this <;> rename_i heq <;> (try rw [heq]) <;> (try simp only)
+    · exact this.2.2.2
+    · rcases this with h | h | h
+      · exact absurd h.2.1 (by simp)
+      · exact Or.inl h.2
+      · exact Or.inr h.2
+
+/-- While residue matching is enforced, an atom identity (any atom for the i-RMSD routine; a backbone atom for the
+    L-RMSD routines, which look at backbone atoms only) present in one structure only makes the three routines that check
+    residues raise `ValueError`.  (`compute_irmsd_pdb2sql` has no residue check: it always leaves missing atoms out.) -/
+theorem mismatch_reported_when_enforced (dl rl : List Str) (dec ref : List Atom) (hd : RawAgrees dl dec) (hr : RawAgrees rl ref)
+    (hc : Consistent dec ref) (c : Rat) :
+    (missingSomewhere none dec ref = true →
+      irmsdFast dl rl (.ok dec) (.ok ref) .compute c true true = .err .valueError) ∧
+    (missingSomewhere (some lrmsdFastNames) dec ref = true →
+      lrmsdFast dl rl (.ok dec) (.ok ref) .compute true true = .err .valueError) ∧
+    (missingSomewhere (some lrmsdSqlNames) dec ref = true →
+      lrmsdSql (.ok dec) (.ok ref) true = .err .valueError) := by
+  refine ⟨fun hm => ?_, fun hm => ?_, fun hm => ?_⟩
+  · have h := irmsd_pairs_fast dl rl dec ref hd hr hc .compute (Or.inl rfl) c true
+    have hrun := irmsdFast_run hd hr .compute (Or.inl rfl) c true
+    obtain ⟨c0, c1, hch, _⟩ := (cons_of_consistent hc).two
+    obtain ⟨zl, hzl, _⟩ := Proofs.Rmsd.mem_computeIzone (c := c) hch
+    rw [hrun, hzl, mismatch_error hm]
+  · have hrun := lrmsdFast_run hd hr .compute (Or.inl rfl) true
+    obtain ⟨c0, c1, hch, _⟩ := (cons_of_consistent hc).two
+    obtain ⟨zl, hzl, _⟩ := Proofs.Rmsd.mem_computeLzone hch
+    rw [hrun, hzl, mismatch_error hm]
+  · obtain ⟨c0, c1, hch, hchd⟩ := (cons_of_consistent hc).two
+    have hme := mismatch_error hm
+    unfold lrmsdSql
+    simp [hch, hchd, bind, Except.bind, chainAt, hme, Outcome.ofExcept]
+
+/-! ### 5. the value: minimum over rigid motions; centroids; identical structures -/
+
+/-- **centroid_optimal_translation.**  For a fixed linear part `R` the deviation `Σ‖R pₖ + t − qₖ‖²` is smallest for the
+    translation that superposes the centroids (`t* = q̄ − R p̄`); the excess of any other `t` is `n·‖t − t*‖²`. -/
+theorem centroid_optimal_translation {α : Type} [Field α] [LinearOrder α] [IsStrictOrderedRing α]
+    (R : Mat3 α) (t : Vec3 α) (l : List (Vec3 α × Vec3 α)) (hl : l ≠ []) :
+    sumSqDev ⟨R, t⟩ l = sumSqDev ⟨R, bestTr R l⟩ l + (l.length : α) * Vec3.normSq (Vec3.sub t (bestTr R l)) ∧
+    sumSqDev ⟨R, bestTr R l⟩ l ≤ sumSqDev ⟨R, t⟩ l :=
+  ⟨sumSqDev_translation R t l hl, centroid_optimal R t l hl⟩
+
+/-- **irmsd_is_min.**  When an i-RMSD routine returns a value, the radicand of that value — what `superpose_selection` +
+    `get_rmsd` compute from the pairs the routine hands over — is the MINIMUM over all rigid motions of the mean squared
+    deviation of the definition's pairs (`Spec.interfacePairs`), provided the kernel returns an optimal rotation on the
+    centred sets.  (The library returns `round(√·, 3)` of it.) -/
+theorem irmsd_is_min (dl rl : List Str) (dec ref : List Atom) (hd : RawAgrees dl dec) (hr : RawAgrees rl ref)
+    (hc : Consistent dec ref) (c : Rat) (enforce : Bool)
+    (rotmat : List (Vec3 ℝ) → List (Vec3 ℝ) → Except Err (Mat3 ℝ)) (fit ev : List Pair)
+    (hrun : irmsdFast dl rl (.ok dec) (.ok ref) .compute c true enforce = .value fit ev ∨
+            irmsdSql (.ok dec) (.ok ref) none c = .value fit ev)
+    (hk : KernelOptimalAt rotmat (realPairs (coordsOf fit))) :
+    ∃ m : ℝ, radicand rotmat (realPairs (coordsOf fit)) (realPairs (coordsOf ev)) = .ok m ∧
+      IsMinMsd m (realPairs (coords (interfacePairs dec ref c))) := by
+  have hperm : ev = fit ∧ (fit.map idPair).Perm (interfacePairs dec ref c) ∧ fit ≠ [] := by
+    rcases hrun with h | h
+    · have := irmsd_pairs_fast dl rl dec ref hd hr hc .compute (Or.inl rfl) c enforce
+      rw [h] at this
+      exact ⟨this.2.1, this.2.2.2, this.1⟩
+    · have := irmsd_pairs_sql dec ref hc c
+      rw [h] at this
+      exact ⟨this.2.1, this.2.2.2, this.1⟩
+  obtain ⟨hev, hp, hne⟩ := hperm
+  subst hev
+  have hne' : realPairs (coordsOf ev) ≠ [] := realPairs_ne_nil (by simpa [coordsOf] using hne)
+  obtain ⟨m, hm, hmin⟩ := radicand_isMin (realPairs (coordsOf ev)) hne' hk
+  refine ⟨m, hm, isMinMsd_perm (realPairs_perm ?_) hmin⟩
+  rw [← coords_idPair]
+  exact hp.map _
+
+/-- **lrmsd_is_fit_then_eval.**  When an L-RMSD routine returns a value, its radicand is the mean squared deviation of the
+    definition's evaluation pairs (common backbone atoms of the shorter chain) after a rigid motion that superposes the
+    definition's fitting pairs (longer chain) optimally. -/
+theorem lrmsd_is_fit_then_eval (dl rl : List Str) (dec ref : List Atom) (hd : RawAgrees dl dec) (hr : RawAgrees rl ref)
+    (hc : Consistent dec ref) (enforce : Bool)
+    (rotmat : List (Vec3 ℝ) → List (Vec3 ℝ) → Except Err (Mat3 ℝ)) (fit ev : List Pair)
+    (hrun : lrmsdFast dl rl (.ok dec) (.ok ref) .compute true enforce = .value fit ev ∨
+            lrmsdSql (.ok dec) (.ok ref) enforce = .value fit ev)
+    (hk : KernelOptimalAt rotmat (realPairs (coordsOf fit))) :
+    ∃ m : ℝ, radicand rotmat (realPairs (coordsOf fit)) (realPairs (coordsOf ev)) = .ok m ∧
+      IsFitThenEval m (realPairs (coords (ligandFitPairs dec ref))) (realPairs (coords (ligandEvalPairs dec ref))) := by
+  have hperm : fit ≠ [] ∧ (fit.map idPair).Perm (ligandFitPairs dec ref) ∧ (ev.map idPair).Perm (ligandEvalPairs dec ref) := by
+    rcases hrun with h | h
+    · have := lrmsd_pairs_fast dl rl dec ref hd hr hc .compute (Or.inl rfl) enforce
+      rw [h] at this; exact ⟨this.1, this.2.2.2⟩
+    · have := lrmsd_pairs_sql dec ref hc enforce
+      rw [h] at this; exact ⟨this.1, this.2.2.2⟩
+  obtain ⟨hfit, hperm⟩ := hperm
+  have hne' : realPairs (coordsOf fit) ≠ [] := realPairs_ne_nil (by simpa [coordsOf] using hfit)
+  obtain ⟨m, hm, hfe⟩ := radicand_isFitThenEval (realPairs (coordsOf fit)) (realPairs (coordsOf ev)) hne' hk
+  refine ⟨m, hm, isFitThenEval_perm (realPairs_perm ?_) (realPairs_perm ?_) hfe⟩
+  · rw [← coords_idPair]; exact hperm.1.map _
+  · rw [← coords_idPair]; exact hperm.2.map _
+
+/-- **identical_scores_zero.**  A decoy identical to the reference: every pair of the definition has equal coordinates
+    (for the interface and for both chains of the ligand measure); the minimum over rigid motions of identical point sets
+    is 0 (unconditionally: i-RMSD scores 0 whenever the kernel is optimal); for the ligand measure the identity motion
+    superposes the fitting pairs with deviation 0 — so the optimum is 0 — and leaves the evaluation pairs at deviation 0. -/
+theorem identical_scores_zero (ref : List Atom) (hc : Consistent ref ref) (c : Rat) :
+    (∀ p ∈ interfacePairs ref ref c, p.2.1 = p.2.2) ∧ (∀ p ∈ ligandFitPairs ref ref, p.2.1 = p.2.2) ∧
+    (∀ p ∈ ligandEvalPairs ref ref, p.2.1 = p.2.2) ∧
+    (∀ (l : List (Vec3 ℝ × Vec3 ℝ)), (∀ pq ∈ l, pq.1 = pq.2) →
+      msd Motion.id l = 0 ∧ ∀ m, IsMinMsd m l → m = 0) := by
+  have hn := (cons_of_consistent hc).nodupR
+  refine ⟨fun p hp => commonBackbone_self hn _ hp, ?_, ?_, fun l hl => ⟨msd_id_of_equal l hl, fun m hm => isMin_zero_of_equal hl hm⟩⟩
+  · intro p hp
+    unfold ligandFitPairs at hp
+    split at hp
+    · exact commonBackbone_self hn _ hp
+    · simp at hp
+  · intro p hp
+    unfold ligandEvalPairs at hp
+    split at hp
+    · exact commonBackbone_self hn _ hp
+    · simp at hp
+
+/-- i-RMSD of identical structures is 0: with an optimal kernel the radicand computed from pairs of equal points is 0 -/
+theorem identical_scores_zero_irmsd (rotmat : List (Vec3 ℝ) → List (Vec3 ℝ) → Except Err (Mat3 ℝ))
+    (l : List (Vec3 ℝ × Vec3 ℝ)) (hl : l ≠ []) (heq : ∀ pq ∈ l, pq.1 = pq.2) (hk : KernelOptimalAt rotmat l) :
+    radicand rotmat l l = .ok 0 := by
+  obtain ⟨m, hm, hmin⟩ := radicand_isMin l hl hk
+  rw [hm, isMin_zero_of_equal heq hmin]
+
+/-- non-vacuity of the kernel hypothesis: for identical point sets the kernel that returns the identity is optimal -/
+example : KernelOptimalAt (fun _ _ => .ok Mat3.one) [((⟨1, 2, 3⟩ : Vec3 ℝ), (⟨1, 2, 3⟩ : Vec3 ℝ)), (⟨0, 1, 0⟩, ⟨0, 1, 0⟩)] :=
+  kernelOptimalAt_of_equal _ (by simp)
+
+/-- L-RMSD of identical structures, at the level the kernel hypothesis supports without a rank condition: the optimal
+    superposition of the (identical) fitting pairs has deviation 0, and the identity motion — one of the optimal motions —
+    leaves the evaluation pairs at deviation 0.  (That EVERY optimal motion does needs the fitted set to span at least a
+    plane: `rank ≥ 2`; not claimed here.) -/
+theorem identical_scores_zero_lrmsd_partial (fit ev : List (Vec3 ℝ × Vec3 ℝ))
+    (hf : ∀ pq ∈ fit, pq.1 = pq.2) (he : ∀ pq ∈ ev, pq.1 = pq.2) :
+    (∀ g : Motion ℝ, g.IsRigid → (∀ h : Motion ℝ, h.IsRigid → msd g fit ≤ msd h fit) → msd g fit = 0) ∧
+    IsFitThenEval 0 fit ev := by
+  refine ⟨fun g hg hopt => ?_, ⟨Motion.id, id_rigid, fun h hh => ?_, msd_id_of_equal ev he⟩⟩
+  · have h1 := hopt _ id_rigid
+    rw [msd_id_of_equal fit hf] at h1
+    exact le_antisymm h1 (msd_nonneg g fit)
+  · rw [msd_id_of_equal fit hf]; exact msd_nonneg h fit
 
 end Props.C07
